@@ -339,7 +339,8 @@ pub fn g_capacity_shaped() -> impl Strategy<Value = Vec<u8>> {
             6 => (8, room.saturating_sub(if room > 251 { 3 } else { 2 })), // Base256
             _ => (11, room.saturating_sub(2)),               // ASCII-only, the length Base256 would fill exactly
         };
-        let n = n.clamp(1, 3116);
+        // the exact length and its neighbours (a pending value / an incomplete group at the end)
+        let n = ((n as isize + [0isize, 0, 0, -2, -1, 1, 2][(seed % 7) as usize]).max(1) as usize).clamp(1, 3116);
         let rnd = expand(seed, n);
         let mut v: Vec<u8> = (0..n)
             .map(|i| match class {
@@ -564,15 +565,18 @@ pub fn fit_pad(data: &[u8], modes: u8, k: u8) -> Vec<u8> {
     let Some(dm) = guard(|| probe.encode()).ok().and_then(|r| r.ok()) else { return data.to_vec() };
     let Ok(d) = refimpl::codec::ref_decode(dm.data_codewords()) else { return data.to_vec() };
     let len = d.unpadded_len();
-    let slack = (k % 3) as usize;
+    // 0, 1, 2 codewords below a capacity - or (k % 8 == 7) one codeword *above* it: where an encoding
+    // that is one codeword longer than promised needs the next symbol
+    let over = (k % 8 == 7) as usize;
+    let slack = if over == 1 { 0 } else { (k % 3) as usize };
     let skip = (k / 3 % 2) as usize; // the next capacity or the one after
     let mut caps: Vec<usize> = SYMBOLS.iter().map(|s| s.data).collect();
     caps.sort_unstable();
     caps.dedup();
     // one case in eight: a capacity far enough away for a digit run of more than 256 characters in front
     let far = if k / 6 % 8 == 7 { 130 } else { 0 };
-    let Some(cap) = caps.iter().filter(|c| **c >= len + slack + far).nth(skip) else { return data.to_vec() };
-    let need = cap - slack - len;
+    let Some(cap) = caps.iter().filter(|c| **c + over >= len + slack + far).nth(skip) else { return data.to_vec() };
+    let need = cap + over - slack - len;
     if need == 0 || need > 400 {
         return data.to_vec();
     }
